@@ -249,7 +249,7 @@ static int run_op(unsigned char *reg, const op_t *op, model_t *m, int check, con
 
 /* ---------- search ---------- */
 static unsigned char *IMG; static size_t img_cap; static model_t *MOD;
-static long n_trans, n_diff;
+static long n_trans, n_diff, n_reloc_runs;
 static void img_store(long idx, const unsigned char *reg, const model_t *m) {
     if ((size_t)(idx + 1) * REGSZ > img_cap) { while ((size_t)(idx + 1) * REGSZ > img_cap) img_cap *= 2; IMG = __real_realloc(IMG, img_cap); MOD = __real_realloc(MOD, sizeof(model_t) * (img_cap / REGSZ + 1)); }
     memcpy(IMG + idx * REGSZ, reg, REGSZ); MOD[idx] = *m;
@@ -279,6 +279,11 @@ static int transition(const unsigned char *image, const model_t *m0, int opi, ch
     place_t q = place_new(p.reg); qhasharr_t *h3 = qhasharr(q.reg, 0); observe(h3, m1, 0, "relocated copy", after, d3);
     if (strcmp(d1, d3)) vc_viol("image:relocated-copy", "after %s: a byte copy of the region at another address observes different contents", after);
     h3->free(h3); place_free(&q, after);
+    /* (e) no process address in the image: the same operation from the same image at yet another address and
+     * alignment must leave byte-identical memory (every byte, residue included) */
+    { place_t g = place_new(image); model_t mg = *m0; int eg; int rg = run_op(g.reg, &OPS[opi], &mg, 0, after, &eg);
+      if (rg != r1 || memcmp(g.reg, p.reg, REGSZ)) { size_t at = 0; while (at < REGSZ && g.reg[at] == p.reg[at]) at++; vc_viol("image:address-dependent", "after %s: the same operation on the same image at another address leaves different bytes (first at offset %zu)", after, at); }
+      place_free(&g, after); n_reloc_runs++; }
     memcpy(newimage, p.reg, REGSZ); set_residue(newimage, 0); canon(newimage, ckey);
     place_free(&p, after);
     /* (2) differential: same op from the image with 0xFF in every unused byte: same result, same canonical successor */
@@ -319,6 +324,7 @@ static int search(void) {
     while (b.head < b.nnodes) {
         long idx = b.head++; int d = bfs_history(&b, idx, hist);
         if ((idx & 0xff) == 0 && vc_deadline_hit()) { complete = 0; break; }
+        if (vc_nviol > 400) { complete = 0; break; }   /* enough counterexamples: do not explore the damaged state space to its end */
         memcpy(cur, IMG + idx * REGSZ, REGSZ); model_t mc = MOD[idx];
         char *k = key; k += sprintf(k, "hasharr:%d:", M); for (int i = 0; i < d; i++) k += sprintf(k, "%d,", hist[i]);
         for (int op = 0; op < NOPS; op++) {
@@ -331,7 +337,7 @@ static int search(void) {
         }
     }
     vc_stat_add("states", b.nkeys); vc_stat_add("transitions", n_trans); vc_stat_add("max_depth", b.max_depth);
-    vc_stat_add("wellformed_checks", n_wf); vc_stat_add("residue_differentials", n_diff); vc_stat_add("copies_verified", n_copies); vc_stat_add("inputs_scribbled", n_scribbled);
+    vc_stat_add("wellformed_checks", n_wf); vc_stat_add("residue_differentials", n_diff); vc_stat_add("address_differentials", n_reloc_runs); vc_stat_add("copies_verified", n_copies); vc_stat_add("inputs_scribbled", n_scribbled);
     vc_stat_add("slots_free_seen", kinds_seen[0]); vc_stat_add("slots_leading_seen", kinds_seen[1]); vc_stat_add("slots_collision_seen", kinds_seen[2]); vc_stat_add("slots_extension_seen", kinds_seen[3]);
     vc_stat_add("relocations", n_reloc); vc_stat_add("promotions", n_promote);
     if (!complete) vc_exhaustive = 0;
